@@ -428,7 +428,28 @@ static void segv_handler(int sig, siginfo_t *si, void *uc)
 	if ((a >> 40) == 0xa5a5a5 || (a & 0xffffffffffff0000UL) == 0xa5a5a5a5a5a50000UL)
 		usim_fail("wild-pointer", "T%d dereferences uninitialised-memory pattern %#lx at pc %#lx",
 			cur->id, (unsigned long) a, (unsigned long) pc);
+	{
+		/* instrumented (library / scenario) text lives in its own section, see Makefile */
+		extern char __start_itext[], __stop_itext[];
+		if (pc == a)
+			usim_fail("wild-jump", "T%d jumps to %#lx, which is not code (a corrupted function pointer or return address)",
+				cur->id, (unsigned long) a);
+		if (pc >= (uintptr_t) __start_itext && pc < (uintptr_t) __stop_itext)
+			usim_fail("wild-pointer", "T%d dereferences unmapped address %#lx at pc %#lx (library or scenario code)",
+				cur->id, (unsigned long) a, (unsigned long) pc);
+	}
 	usim_bug("unclassified SIGSEGV at %#lx pc %#lx in T%d", (unsigned long) a, (unsigned long) pc, cur->id);
+}
+
+static void ill_handler(int sig, siginfo_t *si, void *uc)
+{
+	uintptr_t pc = (uintptr_t) ((ucontext_t *) uc)->uc_mcontext.gregs[REG_RIP];
+	static int nested;
+	(void) si;
+	if (nested++ || !G.active || !cur)
+		_exit(3);
+	usim_fail("crash", "T%d raised %s at pc %#lx (wild jump or arithmetic trap in library or scenario code)",
+		cur->id, sig == SIGILL ? "SIGILL" : "SIGFPE", (unsigned long) pc);
 }
 
 void mem_segv_install(void)
@@ -443,4 +464,7 @@ void mem_segv_install(void)
 	sa.sa_flags = SA_SIGINFO | SA_NODEFER;
 	sigaction(SIGSEGV, &sa, NULL);
 	sigaction(SIGBUS, &sa, NULL);
+	sa.sa_sigaction = ill_handler;
+	sigaction(SIGILL, &sa, NULL);
+	sigaction(SIGFPE, &sa, NULL);
 }
